@@ -104,14 +104,41 @@ def winding_table(ctx, body, R, key, scrut_pred, count_pred):
 def origin_def(an, rv, bb, idx):
     """follow `x = copy y` chains from an rvalue back to the definition that computed the value"""
     seen = 0
-    while rv['k'] == 'use' and rv['o']['k'] in ('copy', 'move') and not rv['o']['p']['pr'] and seen < 20:
+    while rv['k'] == 'use' and rv['o']['k'] in ('copy', 'move') and seen < 20:
+        pr = rv['o']['p']['pr']
+        if [e.get('k') for e in pr] == ['deref']:
+            # `*p` where p = &q (a by-reference parameter of an inlined setter): the value is q's
+            # the pointer may have been moved and re-borrowed on the way (`p2 = move p1`, `p1 = &*p0`, `p0 = &q`)
+            pl, pb, pi = rv['o']['p']['l'], bb, idx
+            target = None
+            for _hop in range(8):
+                ps = an.reaching(pl, pb, pi)
+                if len(ps) != 1 or ps[0].kind != 'assign' or ps[0].partial:
+                    break
+                prv = ps[0].node['rv']
+                if prv['k'] == 'use' and prv['o']['k'] in ('copy', 'move') and not prv['o']['p']['pr']:
+                    pl, pb, pi = prv['o']['p']['l'], ps[0].bb, ps[0].idx
+                elif prv['k'] == 'ref' and [e.get('k') for e in prv['p']['pr']] == ['deref']:
+                    pl, pb, pi = prv['p']['l'], ps[0].bb, ps[0].idx
+                elif prv['k'] == 'ref' and not prv['p']['pr']:
+                    target = (prv['p']['l'], ps[0].bb, ps[0].idx)
+                    break
+                else:
+                    break
+            if target is not None:
+                seen += 1
+                rv, bb, idx = {'k': 'use', 'o': {'k': 'copy', 'p': {'l': target[0], 'pr': []}}}, target[1], target[2]
+                continue
+            return None
+        if pr:
+            return None
         seen += 1
         ds = an.reaching(rv['o']['p']['l'], bb, idx)
         if len(ds) != 1 or ds[0].kind != 'assign' or ds[0].partial:
             return ds[0] if len(ds) == 1 else None
         d = ds[0]
         nrv = d.node['rv']
-        if nrv['k'] == 'use' and nrv['o']['k'] in ('copy', 'move') and not nrv['o']['p']['pr']:
+        if nrv['k'] == 'use' and nrv['o']['k'] in ('copy', 'move') and (not nrv['o']['p']['pr'] or [e.get('k') for e in nrv['o']['p']['pr']] == ['deref']):
             rv, bb, idx = nrv, d.bb, d.idx
             continue
         return d
